@@ -229,6 +229,9 @@ Definition tmpl_unflatten (t : msg) (w : bytes) : res msg := bind (tu_msg t w) (
 
 Fixpoint zeros (n : nat) : bytes := match n with O => [] | S k => x00 :: zeros k end.
 
+(* Rect's default constructor is (left, top, right, bottom) = (0, 0, -1, -1) *)
+Definition default_rect : bytes := zeros 8 ++ [x00; x00; x80; xbf; x00; x00; x80; xbf].
+
 (* n default items added one by one (inline, then an array): AddData(name, type, NULL, n*size), AddString x n *)
 Fixpoint push_n (n : nat) (cur : option repr) (v : item) : option repr :=
   match n with
@@ -258,6 +261,7 @@ with tmpl_of_repr (ft : ftype) (r : repr) {struct r} : option repr :=
   | TString => push_n (N.to_nat (repr_count r)) None (IStr [])
   | TRaw => Some (match r with RInline _ => RInline (IRaw []) | RArray l => RArray (items_map_raw_empty l) end)
   | TPointer | TTag => None
+  | TRect => push_n (N.to_nat (repr_count r)) None (IFix default_rect)
   | _ => push_n (N.to_nat (repr_count r)) None (IFix (zeros (N.to_nat (cpp_size ft))))
   end
 with tmpl_of_item (i : item) (cur : option repr) {struct i} : option repr :=
